@@ -95,8 +95,9 @@ var (
 	bShift   = []string{"Lsh", "Rsh", "SetBit0", "SetBit1", "Exp"}
 	bTwo     = []string{"QuoRem", "DivMod"}
 	bSet     = []string{"SetInt64", "SetUint64", "SetString", "SetBytes", "MulRange", "Binomial"}
-	bRead    = []string{"Cmp", "CmpAbs", "Sign", "BitLen", "Bit", "TrailingZeroBits", "Int64", "Uint64", "IsInt64", "IsUint64", "String", "Text", "Bytes", "ProbablyPrime", "MarshalText", "MarshalJSON", "Format"}
-	bMethods = concat(bBinary, bUnary, bShift, bTwo, bSet, bRead)
+	bRead    = []string{"Cmp", "CmpAbs", "Sign", "BitLen", "Bit", "TrailingZeroBits", "Int64", "Uint64", "IsInt64", "IsUint64", "String", "Text", "Bytes", "ProbablyPrime", "MarshalText", "MarshalJSON", "Format", "Append", "FillBytes", "GobEncode"}
+	bMore    = []string{"SetBitsOf", "ModInverse", "GobRoundTrip", "UnmarshalText", "UnmarshalJSON", "Sscan"}
+	bMethods = concat(bBinary, bUnary, bShift, bTwo, bSet, bRead, bMore)
 )
 
 func concat(ls ...[]string) []string {
@@ -217,6 +218,27 @@ func applyStep(regs []*apd.BigInt, mir []*big.Int, st *BStep) {
 			st.MRet = sRet(string(b))
 		case "Format":
 			st.MRet = sRet(fmt.Sprintf([]string{"%d", "%x", "%+d", "%8d", "%o", "%v", "%s", "%#x", "%-8dX", "%08d"}[st.Aux%10], mz))
+		case "Append":
+			st.MRet = sRet(string(mz.Append([]byte("x="), []int{2, 8, 10, 16, 36, 62}[st.Aux%6])))
+		case "FillBytes":
+			st.MRet = sRet(string(mz.FillBytes(make([]byte, (mz.BitLen()+7)/8+st.Aux%3))))
+		case "GobEncode":
+			b, _ := mz.GobEncode()
+			st.MRet = sRet(string(b))
+		case "SetBitsOf":
+			mz.SetBits(append([]big.Word(nil), mx.Bits()...))
+		case "ModInverse":
+			st.MRet = bRet(mz.ModInverse(mx, my) != nil)
+		case "GobRoundTrip":
+			b, _ := mx.GobEncode()
+			st.MRet = bRet(mz.GobDecode(b) == nil)
+		case "UnmarshalText":
+			st.MRet = bRet(mz.UnmarshalText([]byte(mx.String())) == nil)
+		case "UnmarshalJSON":
+			st.MRet = bRet(mz.UnmarshalJSON([]byte(mx.String())) == nil)
+		case "Sscan":
+			_, err := fmt.Sscan(mx.String(), mz)
+			st.MRet = bRet(err == nil)
 		}
 	}()
 	func() {
@@ -323,6 +345,27 @@ func applyStep(regs []*apd.BigInt, mir []*big.Int, st *BStep) {
 			st.Ret = sRet(string(b))
 		case "Format":
 			st.Ret = sRet(fmt.Sprintf([]string{"%d", "%x", "%+d", "%8d", "%o", "%v", "%s", "%#x", "%-8dX", "%08d"}[st.Aux%10], z))
+		case "Append":
+			st.Ret = sRet(string(z.Append([]byte("x="), []int{2, 8, 10, 16, 36, 62}[st.Aux%6])))
+		case "FillBytes":
+			st.Ret = sRet(string(z.FillBytes(make([]byte, (z.BitLen()+7)/8+st.Aux%3))))
+		case "GobEncode":
+			b, _ := z.GobEncode()
+			st.Ret = sRet(string(b))
+		case "SetBitsOf":
+			z.SetBits(append([]big.Word(nil), x.Bits()...))
+		case "ModInverse":
+			st.Ret = bRet(z.ModInverse(x, y) != nil)
+		case "GobRoundTrip":
+			b, _ := x.GobEncode()
+			st.Ret = bRet(z.GobDecode(b) == nil)
+		case "UnmarshalText":
+			st.Ret = bRet(z.UnmarshalText([]byte(x.String())) == nil)
+		case "UnmarshalJSON":
+			st.Ret = bRet(z.UnmarshalJSON([]byte(x.String())) == nil)
+		case "Sscan":
+			_, err := fmt.Sscan(x.String(), z)
+			st.Ret = bRet(err == nil)
 		}
 	}()
 	if st.M == "SetString" && (!st.Ret.B || !st.MRet.B) {
